@@ -44,6 +44,42 @@ CHECKS = {
   text="Model checking of an explicit exact specification of CP^1 points, disks and Moebius maps with TLC (coordinate systems inverse and equal to stereographic projection, action on matrices equals pointwise image and is a left action, complement an involution exchanging sides, disk equals its reported spherical cap, contains/intersects sound on probe grids with witnesses, duality, Euclidean criterion, Moebius invariance), bound to the code by replaying every emitted conversion table row, every labelled transition of disk histories (boundary points on the circle, interior point inside, circle parameters, centre_inside, Fubini-Study centre/diameter, operand unchanged) and every disk pair (elementwise and pairwise modes, all four bounded/unbounded combinations).",
   note="Centres in a 5x5 Gaussian box, radii k/2, 7 fixed Gaussian-integer Moebius matrices and words of length <= 2 (3 thorough); circles not tangent; affine observables only when the circle avoids infinity; irrational inputs and near-degenerate conditioning not covered; rendering of emitted integers/rationals/surds to floats and tolerances (1e-9 / 1e-8) trusted.",
   design="4/C20"),
+
+ "C04": dict(
+  technique="TLA+ specs Composite.tla (index algebra of composite objects: Bcast, Elementwise, Pairwise, PairwiseReversed, Flatten, Reshape, Index, Slice, Iterate, Stack, Combine, SetItem) and CompUnits.tla (exact integer unit payloads) explored by TLC; the table of specified results replayed into geometry_tools for every class, dimension, shape pair and broadcast mode; recorded random histories validated by TLC against CompositeTrace.tla",
+  text="Model checking of an explicit index-algebra specification: every pair of shapes of rank 0..3 is a TLC state on which pairwise = outer product with the object's axes leading (pairwise_reversed its transpose), elementwise = NumPy broadcasting = diagonal of the outer product, and order preservation of flatten/reshape/index/slice/iterate/stack/combine are checked; bound to the code by calling T.apply / T @ X, every shape operation and every vectorised query on composite objects built from TLC's exact payloads and requiring at every index the unit the specification names (projectively equal to TLC's exact image and numerically equal to the library's own result on the unit objects); recorded random histories validated line by line by TLC.",
+  note="Shapes of rank <= 3 with dimensions in {1,2,3}; ten classes (projective Point, PointPair, Polygon, Transformation; hyperbolic Point, Geodesic, Segment, TangentVector, Polygon, Isometry) in dimensions 2 and 3; quick samples 30% of rank-3 apply cases; binary queries on equal shapes only; ConvexPolygon, Polygon.circle_parameters, dual data not covered; harness projection trusted.",
+  design="4/C04"),
+ "C05": dict(
+  technique="TLA+ specs Rep.tla (with RepDefs, Fox, lib/IntMat, lib/Words), RepHist.tla (generator dictionary as a state machine) and RepTrace.tla explored by TLC: homomorphism / inverse / free-reduction laws, every derived kind commutes with evaluation, symmetric-square and adjoint bases, Fox laws in Z[F]; exact integer tables and the LTS of the dictionary replayed on live Representations; recorded histories validated by RepTrace.tla",
+  text="Model checking of an explicit exact-integer reference semantics of Representation (word evaluation, 11 derived constructions plus tensor, subgroup, realification and projective/hyperbolic wrapping, Fox calculus) with TLC, bound to the code in both directions: every table row executed under 5-9 naming/parsing/dtype/assignment-order modes through every public word-evaluation form, every history of SetGen/Derive up to depth 3 (4 thorough) replayed with entry-by-entry comparison of the stored dictionaries (every name, both cases), all word images and the differential; random recorded histories validated line by line by TLC.",
+  note="n = 1..5, up to 4 generators, integer or Gaussian-integer unimodular matrices only; words exhaustive to length 4 (base), 1-3 (derived), 2-4 (Fox), random to length 12; differential and Fox helpers with single-character names only; empty-word differential outside the library's domain; Sage types not covered; numpy homs passed to compose trusted.",
+  design="4/C05"),
+ "C11": dict(
+  technique="TLA+ spec Derived.tla (state machine over objects with derived data, operators of Composite.tla, payloads of CompUnits.tla) explored by TLC (invariants Coherent, TypeOK); its LTS replayed exhaustively as bounded histories on the real object with unit ids decoded independently from proj_data and from aux_data after each step; recorded random histories validated against CompositeTrace.tla",
+  text="Model checking of an explicit state machine of objects carrying derived data (construct, copy, apply, reshape, flatten, index, slice, set item, stack, combine, astype; queries as stuttering actions) with TLC, bound to the code by executing every history up to the depth bound on the real object and comparing after each step the shape, the units decoded from proj_data, the units decoded independently from aux_data, and aux_data against type(obj)(obj.proj_data).aux_data; after every query the object, the other operand and the caller's arrays must still represent the same projective points.",
+  note="Classes: projective and hyperbolic Polygon, Segment, TangentVector, hyperbolic Point; depth 2 after the constructor (quick), 3 (thorough, small shapes); at most 6 units, two transformations per unit; query battery after the constructor and on a seeded 15% (6%) of later states; ids compared through payloads; ConvexPolygon and dual data not covered.",
+  design="4/C04-C11"),
+ "C13": dict(
+  technique="TLA+ specs HypTangent.tla (exact rational tangent frames g.(o,e1) over HypIso's isometry group) and HypPolygon.tla (regular polygons in exact Q(sqrt r) arithmetic), plus HypMetric.tla point pairs, explored by TLC; every emitted frame, pair and polygon case replayed through the public API against the exact values",
+  text="Model checking with TLC of the exact laws (frame validity, d(p, PointAlong(t)) = |t| on the geodesic on the side of sgn t, towards-direction, angles invariant under frames, law of cosines in integer form, transport h g^-1; polygon closed forms vs cosh R = cot(pi/n) cot(a/2), law of cosines at centre and vertex, admissibility), bound to the code by replaying every case: Point.origin_to, TangentVector.origin_to (orientation forced or not), isometry_to, point_along for rational tanh of both signs, unit_tangent_towards followed for d(p,q), angle against rational cosines, regular_polygon (angle or radius given) with equal radii, sides and the requested interior angle, radius/angle formulas as mutual inverses.",
+  note="Frames: words of length <= 2 (3 thorough, n=2) in 22-29 exact atoms, dimensions 2..5; tanh t rational; polygon angles k*pi/m with m <= 6 and n in {3,4,5,6,8,10,12} exact, other (n, a) measured with the library's own distance/angle; model-level quadratic laws evaluated where 32-bit products are safe; representatives with x0 < 0 belong to C12.",
+  design="4/C13"),
+ "C14": dict(
+  technique="TLA+ specs HypCircle.tla (exact operators: circle of a geodesic in the Poincare ball and half-space, arc orientation by integer determinants, horosphere spheres, null points in spans) and HypCircleCases.tla (case machine with invariants SegIdeal, SegCircle, SegArc, SegFirst, SegHalf, HoroLaws, ArcLaws, SubLaws, PlaneLaws) explored by TLC; every CASE record replayed into geometry_tools",
+  text="Model checking of the exact integer/rational meaning of circle and sphere parameters with TLC, bound to the code by replaying every case: ideal endpoints equal the true pair, are lightlike and collinear with the endpoints in Klein; Poincare centre/radius equal (u+v)/(1+u.v), sqrt(|c|^2-1); half-space circle centred on the boundary through the endpoints; reported angles bound the inside arc counter-clockwise (sampled arc points on the hyperbolic segment); horosphere spheres through the reference point and tangent at the centre in both models; subspace and hyperplane spheres contain all ideal points; degrees/radians, unit and composite shapes agree.",
+  note="Ideal-point entries <= 13/3/2 for n = 2/3/4 (25/5/3 thorough); near-diameters of radius 10, 100, 1000; angles for n = 2 only; objects through the half-space point at infinity excluded; tolerance 1e-9 relative to max(1, r), 1e-6 through conformal coordinates of ideal points; for subspaces of dimension >= 2 only containment is required.",
+  design="4/C14"),
+ "C18": dict(
+  technique="TLA+ specs FormOps.tla, Forms.tla (forms by elementary congruences, rows fed one at a time to exact Gram-Schmidt), Kernels.tla, Spheres.tla, Arcs.tla explored by TLC (exhaustive n <= 3, seeded simulation n = 4..6); every state emitted with exact integer/rational expected values and replayed through indefinite_orthogonalize, find_isometry, orthogonal_complement, diagonalize_form, kernel, sphere_through, circle_through, short_arc, right_to_left, arc_include in 4-5 batch shapes",
+  text="Model checking with TLC of exact contracts (Orth, NormRatio, GramMinor, FlagSpan, Inertia, Jacobi signature, fraction-free elimination rank/nullity, equidistance and order-freeness of sphere centres, declarative = arithmetic form of the three arc rules), bound to the code by replaying every state: orthogonalised rows equal w_i/sqrt|<w_i,w_i>| up to the sign of each row; find_isometry preserves the form with exact leading rows, signs and det > 0 on request; diagonalize_form gives diag(+-1) in the exact signed / minkowski / reversed order with inverse; kernel of exact dimension, annihilated, orthonormal, spanning the exact kernel; sphere/circle functions return the exact centre and radius; arc helpers return the spec's ordered pair modulo 2 pi.",
+  note="Rows with entries in [-2,2] (n <= 4) or [-1,1] (n = 5,6), Gram minors <= 2000, CondK = 50; forms with |det| = 1 on the congruence walk or small symmetric universes; angles on pi/12 (pi/24 thorough), ties excluded; minkowski with p = q accepts either grouped order; SVD/eigh dependent rows bound by their Gram laws only; orthogonal_complement(normalize='form') only where the complement is definite.",
+  design="4/C18"),
+ "C19": dict(
+  technique="TLA+ specs DrawGeom.tla / DrawScene.tla (exact edge, horosphere and chart geometry of scenes under drawing transforms), DrawPath.tla (path assembler state machine, invariants OneStroke, InOrder, NoRepeat, EdgesOnce, Complete) and DrawProj.tla explored by TLC; every emitted scene drawn on the Agg backend and compared with exact values (spec -> code); every outline found in drawing.ax validated as a trace by DrawPathTrace.tla (code -> spec)",
+  text="Model checking of the path assembler and of the exact scene geometry with TLC, bound to the code in both directions: polygons (3..8 vertices, interior and ideal, convex or not, composite), segments, geodesics, points and horospheres under drawing transforms in Poincare, half-plane and Klein, and projective objects in three charts are drawn with the real drawing classes; each artist must be one continuous stroke through the spec's exact vertices in cyclic order with pieces of the specified kind, arcs on the exact circle inside the region on the minor arc, points / horospheres / chart objects at exact coordinates; wrong dimensions raise GeometryError and add nothing.",
+  note="Perfect-square integer points with entries <= 11, transform words <= 2; half-plane objects inside the default window without a vertex at infinity; radius exactly at the threshold excluded; matplotlib's Bezier circles trusted to 1e-4 r; half-plane node tolerance 2e-5 r (conditioning of ideal endpoints); rasterisation, styles, 3-D, draw_nonaff_polygon, horoarcs, boundary arcs, CP1 drawings not covered.",
+  design="4/C19"),
 }
 
 NOT_YET = {
